@@ -121,8 +121,9 @@ def scan_forbidden(only=None):
     return bad
 
 
-def build_coq(timeout=3000):
-    """Full .vo build with make -k -j16.  Returns dict(ok, log, failed=[files that did not compile])."""
+def build_coq(timeout=3000, only=None):
+    """Full .vo build with make -k -j16 (all files, or only the given files and what they depend on).
+    Returns dict(ok, log, failed=[files that did not compile])."""
     proj = "-Q gen Sctp\n-Q model Sctp\n-Q proofs Sctp\n-Q props Sctp\n" + \
         "\n".join(os.path.relpath(p, COQ) for p in coq_sources()) + "\n"
     changed = write_if_changed(os.path.join(COQ, "_CoqProject"), proj)
@@ -130,9 +131,14 @@ def build_coq(timeout=3000):
         rc, out, _ = sh(["coq_makefile", "-f", "_CoqProject", "-o", "Makefile"], cwd=COQ)
         if rc != 0:
             return dict(ok=False, log=out, failed=["coq_makefile"])
-    rc, out, dt = sh(["make", "-k", "-j16"], cwd=COQ, timeout=timeout)
+    wanted = coq_sources()
+    cmd = ["make", "-k", "-j16"]
+    if only is not None:
+        wanted = [p for p in wanted if os.path.relpath(p, COQ) in only]
+        cmd += [os.path.relpath(p, COQ) + "o" for p in wanted]
+    rc, out, dt = sh(cmd, cwd=COQ, timeout=timeout)
     failed = []
-    for p in coq_sources():
+    for p in wanted:
         vo = p + "o"
         if not os.path.exists(vo) or os.path.getmtime(vo) < os.path.getmtime(p):
             failed.append(os.path.relpath(p, COQ))
@@ -164,31 +170,45 @@ def print_assumptions(prop_file):
 def gen_extract(gen):
     """Extract.v and main.ml are generated from coq/extract/parts/*.txt and ocaml/cmp_*.ml, so that
     components can be added without editing shared files."""
-    mods, names = [], []
+    mods, names, skipped = [], [], []
     for p in sorted(glob.glob(os.path.join(COQ, "extract/parts/*.txt"))):
+        pm, pn = [], []
         for line in open(p):
             line = line.strip()
             if not line or line.startswith("#"):
                 continue
             if line.startswith("modules:"):
-                for m in line.split(":", 1)[1].split():
-                    if m not in mods:
-                        mods.append(m)
+                pm += line.split(":", 1)[1].split()
             else:
-                for n in line.split():
-                    if n not in names:
-                        names.append(n)
+                pn += line.split()
+        # a part whose model does not compile right now (work in progress) is left out, with its comparator
+        okp = True
+        for m in pm:
+            src = [q for q in coq_sources() if os.path.basename(q) == m + ".v"]
+            if not src or not os.path.exists(src[0] + "o") or os.path.getmtime(src[0] + "o") < os.path.getmtime(src[0]):
+                okp = False
+        if not okp:
+            skipped.append(os.path.basename(p)[:-4])
+            continue
+        for m in pm:
+            if m not in mods:
+                mods.append(m)
+        for n in pn:
+            if n not in names:
+                names.append(n)
     v = ("(* GENERATED from coq/extract/parts/*.txt.  Only ExtrOcamlBasic is used: bool/option/unit/list/prod/sumbool\n"
          "   map to OCaml's, andb/orb/negb/fst/snd are inlined; nat/positive/N/Z stay Coq inductives. *)\n"
          "From Coq Require Import Extraction ExtrOcamlBasic ZArith List.\n"
          "From Sctp Require Import %s.\nExtraction Language OCaml.\nExtraction \"model.ml\"\n  %s.\n" % (" ".join(mods), "\n  ".join(names)))
     write_if_changed(os.path.join(gen, "Extract.v"), v)
     comps = sorted(os.path.basename(p)[4:-3] for p in glob.glob(os.path.join(VERIF, "ocaml/cmp_*.ml")))
+    comps = [c for c in comps if c not in skipped]
     m = "let () =\n  let fin () = exit (if !Zio.mismatches > 0 then 1 else 0) in\n  match Array.to_list Sys.argv with\n"
     for c in comps:
         m += "  | [_; \"%s\"; path] -> Cmp_%s.run path; fin ()\n" % (c, c)
     m += "  | _ -> prerr_endline \"usage: cmp <component> <trace>\"; exit 2\n"
     write_if_changed(os.path.join(gen, "main.ml"), m)
+    return comps
 
 
 def build_cmp():
@@ -201,11 +221,13 @@ def build_cmp():
     cmpbin = os.path.join(BUILD, "cmp")
     if os.path.exists(cmpbin) and os.path.exists(stamp) and open(stamp).read() == h:
         return True, "cached"
-    gen_extract(gen)
+    # the models must be compiled before extraction
+    build_coq(only=[os.path.relpath(q, COQ) for q in coq_sources() if "/model/" in q or "/gen/" in q])
+    comps = gen_extract(gen)
     rc, out, _ = sh(["coqc", "-Q", "../../coq/gen", "Sctp", "-Q", "../../coq/model", "Sctp", "Extract.v"], cwd=gen, timeout=900)
     if rc != 0:
         return False, "extraction failed:\n" + out
-    mls = ["zio.ml"] + sorted(os.path.basename(p) for p in glob.glob(os.path.join(VERIF, "ocaml/cmp_*.ml")))
+    mls = ["zio.ml"] + ["cmp_%s.ml" % c for c in comps]
     for m in mls:
         shutil.copy(os.path.join(VERIF, "ocaml", m), os.path.join(gen, m))
     mls.append("main.ml")
